@@ -59,9 +59,35 @@ def generate(repo=None):
                 'Definition pc_zbit (z y : bool) : bool := %s.' % cond(m.group('ZFLAG'))]
     except cxx.Refuse as e:
         refused.append(('perform_pauli_errors_via_correlated_errors', str(e)))
+    # the simulators' wrappers: the chain state of an enclosing E / ELSE chain is saved, the helper runs with a flag that starts clear
+    # for every target, and the saved state is restored afterwards
+    wrappers = []
+    for cls, path, save, clear, restore in [
+            ('FrameSimulator<W>', 'src/stim/simulators/frame_simulator.inl', 'tmp_storage = last_correlated_error_occurred;',
+             'last_correlated_error_occurred.clear();', 'last_correlated_error_occurred = tmp_storage;'),
+            ('TableauSimulator<W>', 'src/stim/simulators/tableau_simulator.inl', 'bool tmp = last_correlated_error_occurred;',
+             'last_correlated_error_occurred = false;', 'last_correlated_error_occurred = tmp;')]:
+        wsrc = cxx.strip_comments(open(os.path.join(repo, path)).read())
+        for n in (1, 2):
+            name = 'do_PAULI_CHANNEL_%d' % n
+            try:
+                got = list(cxx.function_bodies(wsrc, r'void %s::%s\(const CircuitInstruction &target_data\)\s*\{' % (re.escape(cls), name)))
+                if len(got) != 1:
+                    raise cxx.Refuse('definition not found')
+                body = ' '.join(got[0][1].split())
+                want = ('%s perform_pauli_errors_via_correlated_errors<%d>( target_data, [&]() { %s }, [&](const CircuitInstruction &d) { '
+                        'do_ELSE_CORRELATED_ERROR(d); }); %s' % (save, n, clear, restore))
+                if body != want:
+                    raise cxx.Refuse('wrapper does not save / clear per target / apply through do_ELSE_CORRELATED_ERROR / restore: ' + body[:200])
+                wrappers.append((cls.split('<')[0], name, n))
+            except cxx.Refuse as e:
+                refused.append((cls + '::' + name, str(e)))
     out = ['(* GENERATED by vlib/gen_paulichan.py from %s of the working tree. *)' % SRC,
            'From Coq Require Import List String Bool NArith.', 'Import ListNotations.', 'Local Open Scope N_scope.'] + defs + [
            'Local Open Scope string_scope.',
+           '(* wrappers recognised as: save the enclosing chain state; run the helper (flag cleared per target, elements applied through',
+           '   do_ELSE_CORRELATED_ERROR); restore the saved state *)',
+           'Definition paulichan_wrappers : list (string * string * N) := [%s].' % '; '.join('("%s", "%s", %d%%N)' % w for w in wrappers),
            'Definition paulichan_refused : list (string * string) := [%s].' % '; '.join('("%s", "%s")' % (a, c.replace('"', "'")) for a, c in refused)]
     core.write_if_changed(os.path.join(core.COQ, 'Gen_PauliChan.v'), '\n'.join(out) + '\n')
     return {'refused': refused}
